@@ -46,13 +46,19 @@ def _option_vars(fn, p_opts):
   return out
 
 
-def _raising(fn, ifnode):
-  """True when the true branch of the `if` node leaves by an explicit raise on every path."""
-  cfg = fn.cfg
-  first = H.nodes_of_stmts(cfg, ifnode.stmt.body[:1])
-  r = cfg.reach(first)
-  return any(cfg.nodes[x].kind == "raise_stmt" for x in r) and cfg.exit.id not in r and \
-      not any(cfg.nodes[x].kind in ("for", "while") and x == ifnode.id for x in r)
+def _raising_sides(cfg, n):
+  """Which branch(es) of the `if` node always leave by an explicit raise: subset of {True, False}."""
+  out = set()
+  t = set(cfg.if_true.get(n.id, ()))
+  f = set(cfg.succ[n.id]) - t - set(cfg.if_exc.get(n.id, ()))
+  for side, succs in ((True, t), (False, f)):
+    if not succs:
+      continue
+    r = cfg.reach(succs)
+    if any(cfg.nodes[x].kind == "raise_stmt" for x in r) and cfg.exit.id not in r and \
+        n.id not in r:
+      out.add(side)
+  return out
 
 
 def r1_validate_before_mutate(run, w):
@@ -62,171 +68,216 @@ def r1_validate_before_mutate(run, w):
   fn = w.fn("useractions.UserActions.BulkAddOrUpdateRecord")
   cfg = fn.cfg
   du = DefUse(fn)
+  rd = H.ReachDefs(fn, du)
   ps = fn.fi.params()
   p_table, p_req, p_vals, p_opts = ps[1], ps[2], ps[3], ps[4]
   ua = set(w.useraction_methods())
-  # mutating calls
-  muts = {}
-  for (n, c, nm) in fn.calls():
+  # mutating calls (directly, or inside a private helper of the class)
+  def is_mut(c, nm, f):
     if nm and nm.startswith("self.") and nm.count(".") == 1 and nm.split(".")[1] in ua:
-      muts.setdefault(n.id, []).append(c)
-    elif E.is_gateway_call(c, nm, fn) or (
-        isinstance(c.func, ast.Attribute) and fn.type_of(c.func.value) == T.DOCMODEL and
-        c.func.attr in ("add", "insert", "insert_after", "update", "remove")) or \
-        (isinstance(c.func, ast.Attribute) and c.func.attr.startswith("doBulk")):
-      muts.setdefault(n.id, []).append(c)
-  names = {fn.name(c) for cs in muts.values() for c in cs}
-  if not {"self.BulkAddRecord", "self.BulkUpdateRecord"} <= names:
+      return True
+    return bool(E.is_gateway_call(c, nm, f) or (
+      isinstance(c.func, ast.Attribute) and f.type_of(c.func.value) == T.DOCMODEL and
+      c.func.attr in ("add", "insert", "insert_after", "update", "remove")) or
+      (isinstance(c.func, ast.Attribute) and c.func.attr.startswith("doBulk")))
+  M = H.may_nodes(w, fn, is_mut, depth=2)
+  direct_names = {nm for (n, c, nm) in fn.calls() if is_mut(c, nm, fn)}
+  def reaches_call(name):
+    return bool(H.may_nodes(w, fn, lambda c, nm, f: nm == name, depth=2))
+  if not (reaches_call("self.BulkAddRecord") and reaches_call("self.BulkUpdateRecord")):
     raise AnalysisError("BulkAddOrUpdateRecord: BulkAddRecord/BulkUpdateRecord calls not found")
-  M = set(muts)
   raises = {n.id for n in cfg.nodes if n.kind in ("raise_stmt", "assert")}
   late = cfg.reach_after(M) & raises
   wit = None
   if late:
     m = sorted(M)[0]
     wit = cfg.describe_path(cfg.path(m, late, after=True))
-  run.ob(R1, fn.qualname, "no raise after %s" % ", ".join(sorted(x.split(".")[1] for x in names)),
+  run.ob(R1, fn.qualname, "no raise after %s" % ", ".join(sorted(x.split(".")[-1]
+                                                                 for x in direct_names if x)),
          "every explicit rejection happens before the first change to the document", not late,
          witness=wit, fi=fn.fi,
          node=cfg.nodes[sorted(late)[0]].stmt if late else None)
   opts = _option_vars(fn, p_opts)
   byopt = {k: (v, d) for v, (k, d) in opts.items()}
+  absent = [k for k in OPTION_DEFAULTS if k not in byopt]
+  if absent:
+    raise AnalysisError("BulkAddOrUpdateRecord: option(s) %s are not read by `<local> = "
+                        "options.get(<key>, <default>)` in this function" % absent)
   for k, dflt in sorted(OPTION_DEFAULTS.items()):
     got = byopt.get(k)
     run.ob(R1, fn.qualname, "options.get(%r, %r)" % (k, dflt), "option %s is read with its "
-           "documented default" % k, got is not None and H.const_value(got[1]) == (True, dflt) and
+           "documented default" % k, H.const_value(got[1]) == (True, dflt) and
            len(E.local_defs(fn.node, got[0])) == 1, fi=fn.fi, nontrivial=False)
+  v_many = byopt["on_many"][0]
+  v_allow = byopt["allow_empty_require"][0]
+  is_name = lambda e, nm: H.is_var(fn, e, nm)
+  if_nodes = [n for n in cfg.nodes if n.kind == "if"]
+  all_atoms = [(n, a) for n in if_nodes for a in H.test_atoms(n.stmt.test)]
+  entry = {cfg.entry.id}
+  bad_targets = M | {cfg.exit.id}
+  def rejected(val, test_node=None):
+    """Under the valuation every path from the entry raises before any change (and never just
+    returns). With test_node: no path from the entry gets to a change, and from the test on
+    every path raises (an earlier return for arguments that need no change is fine)."""
+    if test_node is None:
+      return not (H.reach_assuming(cfg, entry, val) & bad_targets)
+    return not (H.reach_assuming(cfg, entry, val) & M) and \
+        not (H.reach_assuming(cfg, {test_node.id}, val) & bad_targets)
+  recognised = set()
   checks = {}
-  ifs = [n for n in cfg.nodes if n.kind == "if" and _raising(fn, n)]
   # (1) on_many
-  v_many = byopt.get("on_many", (None,))[0]
-  for n in ifs:
-    t = n.stmt.test
-    if isinstance(t, ast.Compare) and len(t.ops) == 1 and isinstance(t.ops[0], ast.NotIn) and \
-        isinstance(t.left, ast.Name) and t.left.id == v_many and \
-        isinstance(t.comparators[0], (ast.Tuple, ast.List, ast.Set)) and \
-        all(isinstance(e, ast.Constant) for e in t.comparators[0].elts):
-      checks["on_many"] = (n, {e.value for e in t.comparators[0].elts})
-  ok = "on_many" in checks and checks["on_many"][1] == ON_MANY
+  def membership(e):
+    """(admitted set, polarity of `in`) for `<on_many> in/not in <constant collection>`."""
+    if isinstance(e, ast.Compare) and len(e.ops) == 1 and isinstance(e.ops[0], (ast.In, ast.NotIn)) \
+        and is_name(e.left, v_many):
+      coll = H.deref(fn, e.comparators[0])
+      if isinstance(coll, (ast.Tuple, ast.List, ast.Set)) and \
+          all(isinstance(x, ast.Constant) for x in coll.elts):
+        return ({x.value for x in coll.elts}, isinstance(e.ops[0], ast.In))
+    return None
+  mem = [(n, a, membership(a)) for (n, a) in all_atoms if membership(a)]
+  admitted = None
+  if mem:
+    recognised |= {id(a) for (n, a, m_) in mem}
+    admitted = mem[0][2][0]
+    val = lambda e: (not membership(e)[1]) if membership(e) else None
+    checks["on_many"] = rejected(val) and all(m_[0] == admitted for (n, a, m_) in mem)
+  ok = checks.get("on_many", False) and admitted == ON_MANY
   run.ob(R1, fn.qualname, "if on_many not in ('first', 'none', 'all'): raise",
          "an on_many value other than the three documented ones is rejected", ok, fi=fn.fi)
   used = set()
   for x in ast.walk(fn.node):
-    if isinstance(x, ast.Compare) and isinstance(x.left, ast.Name) and x.left.id == v_many and \
+    if isinstance(x, ast.Compare) and is_name(x.left, v_many) and \
         len(x.ops) == 1 and isinstance(x.ops[0], (ast.Eq, ast.NotEq)) and \
         isinstance(x.comparators[0], ast.Constant):
       used.add(x.comparators[0].value)
   run.ob(R1, fn.qualname, "on_many compared with %s" % sorted(used),
          "every on_many value the body distinguishes is one the validator admits (and the "
-         "default is admitted)", bool(used) and "on_many" in checks and
-         used <= checks["on_many"][1] and OPTION_DEFAULTS["on_many"] in checks["on_many"][1],
+         "default is admitted)", bool(used) and admitted is not None and
+         used <= admitted and OPTION_DEFAULTS["on_many"] in admitted,
          fi=fn.fi)
-  # (2) empty require
-  v_allow = byopt.get("allow_empty_require", (None,))[0]
-  cands = {}        # raising branches that are about a check, whether or not they are adequate
-  for n in ifs:
-    t = n.stmt.test
-    mentioned = {x.id for x in ast.walk(t) if isinstance(x, ast.Name)}
-    if v_allow in mentioned:
-      cands["empty"] = n
-      if isinstance(t, ast.BoolOp) and isinstance(t.op, ast.And) and len(t.values) == 2 and \
-          sorted(text(x) for x in t.values) == sorted(["not " + p_req, "not %s" % v_allow]):
-        checks["empty"] = (n, None)
+  # (2) empty require: with `require` empty and the option off, nothing but a raise
+  allow_atoms = [(n, a) for (n, a) in all_atoms if is_name(a, v_allow)]
+  if allow_atoms:
+    recognised |= {id(a) for (n, a) in allow_atoms}
+    recognised |= {id(a) for (n, a) in all_atoms if is_name(a, p_req) and
+                   any(n is n2 for (n2, a2) in allow_atoms)}
+    val = lambda e: False if (is_name(e, p_req) or is_name(e, v_allow)) else None
+    checks["empty"] = rejected(val) and not du.rebinders(p_req)
   run.ob(R1, fn.qualname, "if not require and not allow_empty_require: raise",
          "an empty `require` is rejected unless explicitly allowed (and on no other condition)",
-         "empty" in checks, fi=fn.fi)
+         checks.get("empty", False), fi=fn.fi)
   # (3) equal lengths over both dicts
   from_req = lambda x: isinstance(x, ast.Name) and x.id == p_req
   from_vals = lambda x: isinstance(x, ast.Name) and x.id == p_vals
   is_len = lambda x: isinstance(x, ast.Call) and dotted(x.func) == "len"
-  for n in ifs:
-    t = n.stmt.test
-    if isinstance(t, ast.Compare) and len(t.ops) == 1 and is_len(t.left) and \
-        isinstance(t.left.args[0], ast.Name) and \
-        H.const_value(t.comparators[0]) == (True, 1) and \
-        isinstance(t.ops[0], (ast.NotEq, ast.Gt)):
-      uniq = t.left.args[0]
-      cands["lengths"] = n
-      d = H.single_def(fn, uniq.id)
-      is_set = isinstance(d, ast.Call) and dotted(d.func) == "set" and len(d.args) == 1
-      both = du.flows_from(from_req, uniq) and du.flows_from(from_vals, uniq) and \
-          du.flows_from(is_len, d if d is not None else uniq)
-      # the lengths are taken of each value list of each dict
-      per_item = 0
-      for nid in du.backward_slice([uniq]):
-        for e in cfg.nodes[nid].exprs:
-          for x in (ast.walk(e) if e is not None else ()):
-            if isinstance(x, ast.DictComp) and len(x.generators) == 1 and is_len(x.value) and \
-                isinstance(x.generators[0].iter, ast.Call) and \
-                text(x.generators[0].iter) in (p_req + ".items()", p_vals + ".items()") and \
-                not x.generators[0].ifs and \
-                text(x.value.args[0]) == text(x.generators[0].target.elts[1]):
-              per_item += 1
-      if is_set and both and per_item == 2:
-        checks["lengths"] = (n, uniq.id)
+  def length_test(e):
+    """(uniq name, value of e that means 'lengths differ') for len(<uniq>) != 1 and spellings."""
+    if isinstance(e, ast.Compare) and len(e.ops) == 1:
+      l, r, op = e.left, e.comparators[0], e.ops[0]
+      if is_len(r) and H.const_value(l) == (True, 1):
+        l, r = r, l
+        op = {ast.Lt: ast.Gt, ast.Gt: ast.Lt, ast.LtE: ast.GtE, ast.GtE: ast.LtE}.get(type(op),
+                                                                                     type(op))()
+      if is_len(l) and len(l.args) == 1 and isinstance(l.args[0], ast.Name) and \
+          H.const_value(r) == (True, 1):
+        if isinstance(op, (ast.NotEq, ast.Gt)):
+          return (l.args[0], True)
+        if isinstance(op, (ast.Eq, ast.LtE)):
+          return (l.args[0], False)
+    return None
+  for (n, a) in all_atoms:
+    lt = length_test(a)
+    if not lt:
+      continue
+    uniq = lt[0]
+    d = H.single_def(fn, uniq.id)
+    is_set = isinstance(d, ast.Call) and dotted(d.func) == "set" and len(d.args) == 1
+    both = du.flows_from(from_req, uniq) and du.flows_from(from_vals, uniq) and \
+        du.flows_from(is_len, d if d is not None else uniq)
+    if not (is_set and both):
+      continue
+    recognised.add(id(a))
+    # the lengths are taken of each value list of each dict
+    per_item = set()
+    for nid in du.backward_slice([uniq]):
+      for e in cfg.nodes[nid].exprs:
+        for x in (ast.walk(e) if e is not None else ()):
+          if isinstance(x, ast.DictComp) and len(x.generators) == 1 and is_len(x.value) and \
+              isinstance(x.generators[0].iter, ast.Call) and \
+              H.canon(fn, x.generators[0].iter) in (p_req + ".items()", p_vals + ".items()") and \
+              not x.generators[0].ifs and isinstance(x.generators[0].target, ast.Tuple) and \
+              text(x.value.args[0]) == text(x.generators[0].target.elts[1]):
+            per_item.add(H.canon(fn, x.generators[0].iter))
+    val = lambda e, a=a, lt=lt: lt[1] if e is a else None
+    checks["lengths"] = len(per_item) == 2 and rejected(val, n)
   run.ob(R1, fn.qualname, "if len(set(<len of every list in require and col_values>)) != 1: raise",
          "value lists of different lengths, across both dictionaries, are rejected",
-         "lengths" in checks, fi=fn.fi)
+         checks.get("lengths", False), fi=fn.fi)
   # (4) unique require keys
-  for n in ifs:
-    t = n.stmt.test
-    parts = t.values if isinstance(t, ast.BoolOp) and isinstance(t.op, ast.And) else [t]
-    cmp = [x for x in parts if isinstance(x, ast.Compare) and len(x.ops) == 1 and
-           isinstance(x.ops[0], (ast.Lt, ast.NotEq)) and isinstance(x.left, ast.Name) and
-           isinstance(x.comparators[0], ast.Name)]
-    rest = [x for x in parts if x not in cmp]
-    if len(cmp) != 1 or not all(isinstance(x, ast.Name) and x.id == p_req for x in rest):
+  for (n, a) in all_atoms:
+    if not (isinstance(a, ast.Compare) and len(a.ops) == 1 and
+            isinstance(a.ops[0], (ast.Lt, ast.NotEq, ast.Gt, ast.GtE, ast.Eq)) and
+            isinstance(a.left, ast.Name) and isinstance(a.comparators[0], ast.Name)):
       continue
-    nu, ln = cmp[0].left, cmp[0].comparators[0]
+    nu, ln, op = a.left, a.comparators[0], a.ops[0]
+    if isinstance(op, ast.Gt):
+      nu, ln, op = ln, nu, ast.Lt()
+    dup_value = True
+    if isinstance(op, (ast.GtE, ast.Eq)):
+      dup_value = False           # num_unique >= length / == length means "no duplicates"
     d = H.single_def(fn, nu.id)
     counts_keys = isinstance(d, ast.Call) and dotted(d.func) == "len" and len(d.args) == 1 and \
         isinstance(d.args[0], ast.Call) and dotted(d.args[0].func) == "set" and \
-        isinstance(d.args[0].args[0], ast.Call) and dotted(d.args[0].args[0].func) == "zip" and \
-        du.flows_from(from_req, d)
+        d.args[0].args and isinstance(d.args[0].args[0], ast.Call) and \
+        dotted(d.args[0].args[0].func) == "zip" and du.flows_from(from_req, d)
+    if not counts_keys:
+      continue
+    recognised.add(id(a))
+    recognised |= {id(a2) for (n2, a2) in all_atoms if n2 is n and is_name(a2, p_req)}
     is_length = du.flows_from(is_len, ln) and du.flows_from(from_req, ln)
-    if counts_keys:
-      cands["unique"] = n
-    if counts_keys and is_length:
-      checks["unique"] = (n, None)
+    val = lambda e, a=a, dv=dup_value: dv if e is a else (True if is_name(e, p_req) else None)
+    checks["unique"] = is_length and rejected(val, n)
   run.ob(R1, fn.qualname, "if require and len(set(zip(*<require values>))) < length: raise",
-         "repeated `require` keys are rejected", "unique" in checks, fi=fn.fi)
-  if "on_many" in checks:
-    cands["on_many"] = checks["on_many"][0]
-  missing = [k for k in ("on_many", "empty", "lengths", "unique") if k not in cands]
-  unclassified = [n for n in ifs if n.id not in {c.id for c in cands.values()}]
+         "repeated `require` keys are rejected", checks.get("unique", False), fi=fn.fi)
+  missing = [k for k in ("on_many", "empty", "lengths", "unique") if k not in checks]
+  unclassified = [n for n in if_nodes if _raising_sides(cfg, n) and
+                  not any(id(a) in recognised for a in H.test_atoms(n.stmt.test))]
   if missing and unclassified:
     raise AnalysisError("BulkAddOrUpdateRecord: check(s) %s not recognised while %d raising "
                         "branch(es) could not be classified (e.g. `%s`)"
                         % (missing, len(unclassified), short(unclassified[0].stmt.test, 60)))
-  # each check dominates every mutating call
-  for k in ("on_many", "empty", "lengths", "unique"):
-    if k not in checks:
-      continue
-    n = checks[k][0]
-    bad = [m for m in sorted(M) if not cfg.dominated_by(m, {n.id})]
-    run.ob(R1, fn.qualname, "check `%s` before every mutating call" % short(n.stmt.test, 60),
-           "the check cannot be bypassed on the way to a change", not bad, fi=fn.fi,
-           node=n.stmt, witness=cfg.describe_path(cfg.path(cfg.entry.id, {bad[0]},
-                                                           removed={n.id})) if bad else None)
   # the single-record form
   one = w.fn("useractions.UserActions.AddOrUpdateRecord")
+  odu = DefUse(one)
+  ord_ = H.ReachDefs(one, odu)
   qs = one.fi.params()
   dele = [(n, c) for (n, c, nm) in one.calls() if nm == "self.BulkAddOrUpdateRecord"]
-  ok = len(dele) == 1 and len(dele[0][1].args) == 4 and \
-      [text(a) for a in dele[0][1].args] == [qs[1], qs[2], qs[3], qs[4]]
-  wraps = {}
-  for s in ast.walk(one.node):
-    if isinstance(s, ast.Assign) and isinstance(s.targets[0], ast.Name) and \
-        isinstance(s.value, ast.DictComp) and len(s.value.generators) == 1:
-      g = s.value.generators[0]
-      if text(g.iter) == s.targets[0].id + ".items()" and not g.ifs and \
-          isinstance(s.value.value, ast.List) and len(s.value.value.elts) == 1 and \
-          isinstance(g.target, ast.Tuple) and \
-          text(s.value.key) == text(g.target.elts[0]) and \
-          text(s.value.value.elts[0]) == text(g.target.elts[1]):
-        wraps[s.targets[0].id] = s
-  ok = ok and set(wraps) == {qs[2], qs[3]} and \
-      H.unrebound_at(one, DefUse(one), qs[4], dele[0][0].id) if ok else False
+  ok = len(dele) == 1
+  if ok:
+    dn, dc = dele[0]
+    try:
+      dargs = [H.arg_of(dc, fn.fi, p) for p in ps[1:5]]
+    except AnalysisError:
+      dargs = [None]
+    ok = all(a is not None for a in dargs) and H.canon(one, dargs[0]) == qs[1] and \
+        H.canon(one, dargs[3]) == qs[4] and H.unrebound_at(one, odu, qs[4], dn.id) and \
+        H.unrebound_at(one, odu, qs[1], dn.id)
+    def wraps(arg, param):
+      """arg is {k: [v] for k, v in <param as passed in>.items()}."""
+      v, at = H.resolve(one, odu, ord_, arg, dn.id)
+      if not (isinstance(v, ast.DictComp) and len(v.generators) == 1):
+        return False
+      g = v.generators[0]
+      it = g.iter
+      return isinstance(it, ast.Call) and isinstance(it.func, ast.Attribute) and \
+          it.func.attr == "items" and not it.args and isinstance(it.func.value, ast.Name) and \
+          it.func.value.id == param and ord_.reaching(param, at) == {H.ReachDefs.ENTRY} and \
+          not g.ifs and isinstance(v.value, ast.List) and len(v.value.elts) == 1 and \
+          isinstance(g.target, ast.Tuple) and len(g.target.elts) == 2 and \
+          text(v.key) == text(g.target.elts[0]) and \
+          text(v.value.elts[0]) == text(g.target.elts[1])
+    ok = ok and wraps(dargs[1], qs[2]) and wraps(dargs[2], qs[3])
   run.ob(R1, one.qualname, "require = {k: [v]}; col_values = {k: [v]}; "
          "self.BulkAddOrUpdateRecord(table_id, require, col_values, options)",
          "the single-record form is the bulk form on one-element lists, with the caller's options "
